@@ -11,10 +11,12 @@ PREFIX = {"QWidget": "widget", "QLabel": "label", "QPushButton": "pushButton", "
           "QMenuBar": "menuBar", "QFrame": "frame", "Label1": "label1", "Widget2": "widget2", "QDialog": "dialog",
           "QVBoxLayout": "vboxLayout", "QHBoxLayout": "hboxLayout", "QFormLayout": "formLayout", "QGridLayout": "gridLayout",
           "QSpacerItem": "spacerItem", "QAction": "action", "QMenu": "menu", "QTabWidget": "tabWidget",
-          "MyMenu": "myMenu", "MyWidget": "myWidget"}
+          "MyMenu": "myMenu", "MyWidget": "myWidget", "MyRow": "myRow", "MyGrid": "myGrid"}
 COMPONENTS = {"MyMenu.qml": "import qmluic.QtWidgets\nQMenu { QAction { id: inner } }\n",
-              "MyWidget.qml": "import qmluic.QtWidgets\nQWidget { QLabel { id: innerLabel } }\n"}
-LAYOUTS = {"QVBoxLayout", "QHBoxLayout", "QFormLayout", "QGridLayout"}
+              "MyWidget.qml": "import qmluic.QtWidgets\nQWidget { QLabel { id: innerLabel } }\n",
+              "MyRow.qml": "import qmluic.QtWidgets\nQHBoxLayout { QLabel { id: innerRowLabel } }\n",
+              "MyGrid.qml": "import qmluic.QtWidgets\nQGridLayout { columns: 2; QLabel { id: innerGridLabel } }\n"}
+LAYOUTS = {"QVBoxLayout", "QHBoxLayout", "QFormLayout", "QGridLayout", "MyRow", "MyGrid"}
 
 
 def kind(cls):
@@ -130,7 +132,7 @@ def document(t, extra=None):
 
 
 def uses_components(t):
-    return any(n["cls"] in ("MyMenu", "MyWidget") for n, _ in nodes(t))
+    return any(n["cls"] in ("MyMenu", "MyWidget", "MyRow", "MyGrid") for n, _ in nodes(t))
 
 
 def request(i, t, modes=("generate",), extra=None, **kw):
